@@ -1,6 +1,8 @@
 package props
 
 import (
+	"bufio"
+	"io"
 	"strings"
 	"bytes"
 	"errors"
@@ -92,12 +94,29 @@ func mergeWorkload(name string, segs []segment.Segment, drops []*roaring.Bitmap)
 		}}
 }
 
+// persistWorkload: Segment.WriteTo. The "buffer size" of a persist workload is the size of a
+// *bufio.Writer the CALLER wraps around the destination (0 = none): bufio.NewWriter returns its
+// argument unchanged when that is already a large enough *bufio.Writer, so the data section then
+// goes through the same buffer as the footer and a write error surfaces only when it is flushed.
 func persistWorkload(name string, seg segment.Segment) c12Workload {
-	return c12Workload{name: name, bufSizes: []int{0},
-		run: func(w *faultWriter, ch chan struct{}, _ int) (n int64, err error) {
-			msg := explore.Guard(func() { n, err = seg.WriteTo(w, ch) })
+	return c12Workload{name: name, bufSizes: []int{0, 16, 4096, 1 << 20},
+		run: func(w *faultWriter, ch chan struct{}, wrap int) (n int64, err error) {
+			var dst io.Writer = w
+			var bw *bufio.Writer
+			if wrap > 0 {
+				bw = bufio.NewWriterSize(w, wrap)
+				dst = bw
+			}
+			msg := explore.Guard(func() { n, err = seg.WriteTo(dst, ch) })
 			if msg != "" {
 				return 0, fmt.Errorf("%s", msg)
+			}
+			if bw != nil && err == nil {
+				// the caller flushes its own writer; an error it gets here was never reported by WriteTo
+				// only if WriteTo left bytes unflushed - WriteTo flushes, so nothing should be pending
+				if ferr := bw.Flush(); ferr != nil {
+					return n, ferr
+				}
 			}
 			return n, err
 		}}
